@@ -44,7 +44,8 @@ LEVEL_NOTE = ("Trusted: kernel, extraction, harness; the model-to-code tie is sa
               "emitted items; that the text reads back to those items is checked on every case (roundtrip_b), not proved. "
               "Side conditions of the mark-to-market theorems: account names as the parser guarantees them (postings_syntactic) and "
               "no directive dated before 0001-01-01 (dates_nonneg: mtm_check counts the truncation steps inside [day 0, last day]; "
-              "a journal with dates in the year 0000 gets a smaller allowance than the theorem needs). "
+              "a journal with dates in the year 0000 gets a smaller allowance than the theorem needs: "
+              "C16_mark_to_market_without_calendar_condition_refuted; the generator stays within 2000-2100). "
               "That the A/L account of a value adjustment is still open is proved (C16_adjusted_account_open: coupling of Check's "
               "and Valuate's quantities); for its Income:... account the clause is false (F16).")
 
